@@ -318,9 +318,47 @@ theorem names_ne_nil (a : RFrame) (ha : a.cols.length > 1) : a.names ≠ [] := b
   simp at this
   omega
 
-theorem colArg_one (d : Option Rat) (c : String) (idx : List Int) (n : String) (col : RCol) (ix : List Int) :
-    colArg d c (.df (reindexF { idx := idx, cols := [(n, col)] } ix Option.none)) = .ts (reindexR { idx := idx, vals := col } ix Option.none) := by
-  simp [colArg, reindexF, reindexR, lookF, srcRow, valueAtR]
+/-! ### a frame with one column -/
+
+theorem zip_as_range (idx : List Int) (col : RCol) (h : col.length = idx.length) :
+    idx.zip col = (List.range idx.length).map fun i => (idx.getD i 0, (col[i]?).join) := by
+  apply List.ext_getElem
+  · simp [h]
+  · intro i h1 h2
+    have hi : i < idx.length := by simp at h2; exact h2
+    have hc : i < col.length := by omega
+    simp [List.getElem?_eq_getElem hi, List.getElem?_eq_getElem hc]
+
+theorem validRows_one (idx : List Int) (n : String) (col : RCol) :
+    validRows { idx := idx, cols := [(n, col)] } = (List.range idx.length).filter fun i => ((col[i]?).join).isSome := by
+  simp [validRows]
+
+theorem nonaR_as_rows (idx : List Int) (n : String) (col : RCol) (h : col.length = idx.length) :
+    (nonaR { idx := idx, vals := col }).idx = (validRows { idx := idx, cols := [(n, col)] }).map (fun i => idx.getD i 0) ∧
+    (nonaR { idx := idx, vals := col }).vals = (validRows { idx := idx, cols := [(n, col)] }).map (fun i => (col[i]?).join) := by
+  simp only [nonaR, validRows_one, zip_as_range idx col h, List.filter_map, List.map_map]
+  constructor <;> rfl
+
+/-- a frame with one (rectangular) column is reindexed like the Series of that column, with any fill method -/
+theorem lookF_one (idx : List Int) (n : String) (col : RCol) (h : col.length = idx.length) (m : Option Dir) (t : Int) :
+    lookF { idx := idx, cols := [(n, col)] } m col t = lookR { idx := idx, vals := col } m t := by
+  obtain ⟨h1, h2⟩ := nonaR_as_rows idx n col h
+  cases m with
+  | none => rfl
+  | some d =>
+    cases d <;> simp only [lookF, srcRow, lookR, h1, h2, List.getElem?_map, Option.bind_assoc] <;>
+      congr 1 <;> funext j <;> cases (validRows { idx := idx, cols := [(n, col)] })[j]? <;> simp
+
+theorem colArg_one (d : Option Rat) (c : String) (idx : List Int) (n : String) (col : RCol) (ix : List Int) (m : Option Dir)
+    (h : col.length = idx.length) :
+    colArg d c (.df (reindexF { idx := idx, cols := [(n, col)] } ix m)) = .ts (reindexR { idx := idx, vals := col } ix m) := by
+  rw [reindexR_eq]
+  simp only [colArg, reindexF, List.map_cons, List.map_nil, List.length_cons, List.length_nil, if_true, List.head?_cons, Option.map_some,
+    Option.getD_some]
+  congr 2
+  apply List.map_congr_left
+  intro t _
+  exact lookF_one idx n col h m t
 
 /-! ### aggregates on frames -/
 
